@@ -7,4 +7,6 @@ require (
 	pgregory.net/rapid v1.3.0
 )
 
+require golang.org/x/crypto v0.37.0 // indirect
+
 replace github.com/TheManticoreProject/Manticore => /repo
